@@ -37,12 +37,11 @@ DECODE = c09.DECODE
 
 # (function suffix, kind, operand fragment) -> reason.  One symbol wide: a new undischarged site is a violation.
 TRUSTED = {
-    ("skip_bytes::{closure#0}", "Overflow:Sub", "bytes"): "bytes as usize - bytes_counter: the counter cannot pass `bytes` because each read is capped by a buffer of capacity min(remaining, 64 KiB) (allocator-capacity assumption)",
+    ("skip_bytes::{closure#0}", "Overflow:Sub", ""): "bytes as usize - bytes_counter: the counter cannot pass `bytes` because each read is capped by a buffer of capacity min(remaining, 64 KiB) (allocator-capacity assumption)",
     ("skip_bytes::{closure#0}", "explicit-panic", ""): "panic!(\"Read too much bytes\") guards the same allocator-capacity assumption; unreachable while with_capacity(n) gives exactly n",
-    ("skip_bytes::{closure#0}", "Overflow:Add", "bytes_counter"): "bytes_counter += bytes_read: bounded by `bytes` (u32) under the same assumption",
+    ("skip_bytes::{closure#0}", "Overflow:Add", ""): "bytes_counter += bytes_read: bounded by `bytes` (u32) under the same assumption",
     ("run::{closure#0}", "precondition:unwrap", ""): "Semaphore::acquire() fails only after close(), which the crate never calls (C17.R2 census)",
     ("CacheImplDetails>::check_if_expired", "Overflow:Add", "timestamp"): "record.header.timestamp + ttl as u64: the timestamp is the server's own tick counter (seconds since start, stamped by MemoryStore::set) and ttl < 2^32 — the sum stays below 2^64 for 5*10^11 years of uptime",
-    ("RandomPolicy::incr_mem_usage::{closure#0}", "Overflow:Add", "number_of_calls"): "number_of_calls counts the entries visited by one sweep of remove_if: bounded by the number of stored items",
     ("BinaryHandler::get", "Overflow:Add", ""): "value.len() as u32 + 4 + key.len() as u32 overflows only for a stored value of 4 GiB - 4 or more; the item size limit is a u32 (at most 1024m per the CLI) and a single request cannot exceed it (append growth to 4 GiB is an advisory, not a request-path input)",
 }
 
